@@ -226,9 +226,6 @@ theorem expandFlat_ne_nil (f : Flat) (h : f ≠ []) : expandFlat f ≠ [] := by
 /-- the meaning of an expression's own rendering, taken alone -/
 def unitVal (env : Nat → V3) (e : Ex) : V3 := sqlEval env e.build
 
-/-- joiner `buildExprs` writes before a non-first member -/
-def memberJoin (jc : Joiner) (e : Ex) : Joiner := if e.isSingleOr then .or else jc
-
 /-- THE PROPERTY's reading of a `buildExprs` list: members are indivisible, combined left to right with
     their joiners under standard precedence -/
 def listSpecRuns (env : Nat → V3) (jc : Joiner) (acc cur : V3) : List Ex → V3
@@ -319,6 +316,22 @@ theorem buildList_single (env : Nat → V3) (jc : Joiner) (e : Ex) :
 end Gorm
 
 namespace Gorm
+
+/-! ### generated comparisons -/
+
+theorem AtomKind.pol_negate (k : AtomKind) : k.negate.pol = !k.pol := by cases k <;> rfl
+
+def cmpVal (env : Nat → V3) (a : Atom) : V3 := if a.kind.pol then env a.id else (env a.id).not
+
+theorem unitVal_cmp (env : Nat → V3) (a : Atom) : unitVal env (.atom a) = cmpVal env a := by
+  simp [unitVal, sqlEval, Ex.build, expandFlat, expandItem, List.cons_append, List.nil_append, Atom.core, evalFlat, evalCore, applyNegs_zero, evalRuns, cmpVal]
+
+theorem cmpVal_negate (env : Nat → V3) (a : Atom) : cmpVal env a.negate = (cmpVal env a).not := by
+  unfold cmpVal
+  show (if a.kind.negate.pol = true then env a.id else (env a.id).not) = _
+  rw [AtomKind.pol_negate]
+  cases a.kind.pol <;> simp
+
 
 /-! ### lists without OR-joined members: plain conjunctions -/
 
